@@ -105,3 +105,67 @@ REPLAYERS = {
     "C16.D12": w_d12,
     "C16.D13": w_d13,
 }
+
+
+PROGRAMS = [
+    # (source, call expression evaluated before and after the fix, error codes to enable)
+    ("def f():\n    unused = used = 3\n    return used\n", "f()", []),
+    ("def f():\n    unused = 3\n    return 4\n", "f()", []),
+    ("def f(base, name):\n    return {**base, 'label': 'name: %s' % name}\n", "f({'a': 1}, 'n')", ["use_fstrings"]),
+    ("def f(name):\n    return 'hello %s!' % name\n", "f('n')", ["use_fstrings"]),
+    ("def f(a, b):\n    x = [a, *b]\n    y = 3\n    return x\n", "f(1, [2])", []),
+    ("def g(*, k, j=1):\n    return k + j\ndef f(name):\n    h = lambda *, k: k\n    return 'v: %s' % name + str(g(k=1)) + str(h(k=2))\n", "f('n')", ["use_fstrings"]),
+]
+
+
+def search_autofix():
+    """apply every proposed fix until nothing changes: the file still parses, the fixed diagnostic is gone, no new
+    diagnostic appears and the function computes what it computed before"""
+    import ast
+    from pyanalyze.error_code import ErrorCode
+    from replay.checkcode import check_code
+    for src, call, enable in PROGRAMS:
+        settings = {getattr(ErrorCode, c): True for c in enable}
+        ns0 = {}
+        exec(src, ns0)
+        before = eval(call, ns0)
+        code = src
+        first = None
+        for _ in range(6):
+            res, new = check_code(code, settings=settings, apply_changes=True)
+            codes = sorted(f["code"].name for f in res if f.get("code") is not None)
+            if first is None:
+                first = codes
+            if new == code or not new:
+                break
+            try:
+                ast.parse(new)
+            except SyntaxError as e:
+                return f"fix of {codes} in {src!r} gives unparsable code {new!r}: {e}"
+            code = new
+        if code != src:
+            res2 = check_code(code, settings=settings)
+            after_codes = sorted(f["code"].name for f in res2 if f.get("code") is not None)
+            new_codes = [c for c in after_codes if c not in first]
+            if new_codes:
+                return f"after applying the proposed fixes to {src!r} the file is {code!r} and new diagnostics appear: {new_codes}"
+            ns1 = {}
+            try:
+                exec(code, ns1)
+                after = eval(call, ns1)
+            except Exception as e:
+                return f"after applying the proposed fixes to {src!r} the file is {code!r}; {call} now raises {type(e).__name__}: {e}"
+            if after != before:
+                return f"after applying the proposed fixes to {src!r} the file is {code!r}; {call} returned {before!r} before and {after!r} after"
+    return None
+
+
+def r_c16_bounded(rec):
+    for fn in (search_apply_changes, search_add_ignore_step, search_autofix):
+        msg = fn()
+        if msg:
+            return True, msg
+    return False, "one-step lemmas and the autofix round trip hold on the bounded universe"
+
+
+REPLAYERS["C16.bounded"] = r_c16_bounded
